@@ -118,3 +118,25 @@ def sharded_pipeline(total, batch_size, shard_index=0, num_shards=1, fuse=True,
   return data.chain(apply).chain(
       transform.TreeTransform.new(name='agg').aggregate(
           output_keys='stats', fn=SumCount()))
+
+
+# ---- calls during which the server is asked to shut down (C14) ------------------
+
+def _request_shutdown(addr):
+  from vmc import cenv
+  m = cenv.prepare()
+  for s in m.courier_server.CourierServer.all_instances:
+    if s.address == addr:
+      s._request_shutdown()
+
+
+def shutdown_then_raise(addr, msg='boom-mid-call'):
+  """The shutdown request arrives while this call is being served; then the
+  call fails."""
+  _request_shutdown(addr)
+  raise ValueError(msg)
+
+
+def shutdown_then_return(addr, value):
+  _request_shutdown(addr)
+  return value
